@@ -73,6 +73,8 @@ FULL = [
     {"op": "add_picture", "img": "I11", "via": "stream"},
     {"op": "target_slide", "to": 0},
     {"op": "target_slide", "to": None},
+    {"op": "target_slide", "to": 0, "which": "both"},       # two shapes of the slide jump to the same slide
+    {"op": "target_slide", "to": None, "which": "first"},
     {"op": "remove_layout", "in_use": False},
     {"op": "remove_layout", "in_use": True},
     {"op": "remove_layout_cross"},                 # enabled on decks with several masters: documented ValueError
@@ -104,6 +106,8 @@ SUB = [
     {"op": "notes_text", "text": "n1"},
     {"op": "target_slide", "to": 0},
     {"op": "target_slide", "to": None},
+    {"op": "target_slide", "to": 0, "which": "both"},
+    {"op": "target_slide", "to": None, "which": "first"},
     {"op": "core_props"},
     {"op": "save_reopen"},
 ]
